@@ -158,6 +158,40 @@ func judgeSafeOne(cs safeCase) (string, []byte) {
 	if len(bad) > 0 {
 		return bad[0].Why, out
 	}
+	// accepted alone: the batch converts on shared instances from many goroutines (documented
+	// use); the same document is converted again under that load and every distinct output judged
+	md := cs.Config.build()
+	other := [][]byte{[]byte("[a](http://ok/) ![i](/i.png) <http://x.y/z>\n"), []byte("# h\n\ntext *e* `c`\n"), []byte(cs.Doc)}
+	var mu sync.Mutex
+	outs := map[string]bool{}
+	var wg sync.WaitGroup
+	for g := 0; g < 16; g++ {
+		wg.Add(1)
+		go func(g int) {
+			defer wg.Done()
+			for k := 0; k < 2500; k++ {
+				if g%2 == 0 {
+					_, _ = convertWith(md, other[k%len(other)])
+					continue
+				}
+				if o, e := convertWith(md, []byte(cs.Doc)); e == nil {
+					mu.Lock()
+					outs[string(o)] = true
+					mu.Unlock()
+				}
+			}
+		}(g)
+	}
+	wg.Wait()
+	for o := range outs {
+		if o == string(out) {
+			continue
+		}
+		r := abstractOutput([]byte(o), cs.Config.XHTML)
+		if b2, _ := tlcJudge("HtmlOut", "HtmlOut.cfg", "outputs.ndjson", []interface{}{r}); len(b2) > 0 {
+			return b2[0].Why, []byte(o + "  (only while other goroutines convert on the same instance)")
+		}
+	}
 	return "ok", out
 }
 
